@@ -33,12 +33,146 @@ def _const_key(node: ast.AST | None) -> str | None:
     return node.value if isinstance(node, ast.Constant) and isinstance(node.value, str) else None
 
 
+
+# ---------------------------------------------------------------------------------------------- normal form of a writer
+class _Sub(ast.NodeTransformer):
+    def __init__(self, bound: dict[str, ast.expr]) -> None:
+        self.bound = bound
+
+    def visit_Name(self, node: ast.Name) -> ast.AST:  # noqa: N802
+        import copy
+
+        return copy.deepcopy(self.bound[node.id]) if node.id in self.bound and isinstance(node.ctx, ast.Load) else node
+
+
+def _rows_of(fn_node: ast.AST, it: ast.expr) -> list[ast.expr] | None:
+    """The elements of a literal tuple / list display, directly or through a local bound once to one."""
+    if isinstance(it, ast.Name):
+        defs = [s_ for s_ in ast.walk(fn_node) if isinstance(s_, (ast.Assign, ast.AnnAssign)) and s_.value is not None and any(
+            isinstance(t, ast.Name) and t.id == it.id for t in (s_.targets if isinstance(s_, ast.Assign) else [s_.target]))]
+        if len(defs) != 1:
+            return None
+        it = defs[0].value
+    if isinstance(it, (ast.Tuple, ast.List)) and it.elts and not any(isinstance(e, ast.Starred) for e in it.elts):
+        return list(it.elts)
+    return None
+
+
+def _bind_row(target: ast.expr, row: ast.expr) -> dict[str, ast.expr] | None:
+    if isinstance(target, ast.Name):
+        return {target.id: row}
+    if isinstance(target, (ast.Tuple, ast.List)) and isinstance(row, (ast.Tuple, ast.List)) and len(target.elts) == len(row.elts) \
+            and all(isinstance(t, ast.Name) for t in target.elts):
+        return {t.id: r for t, r in zip(target.elts, row.elts)}  # type: ignore[union-attr]
+    return None
+
+
+def _simplify(st: ast.stmt) -> ast.stmt:
+    """getattr(self, "name") -> self.name"""
+    class G(ast.NodeTransformer):
+        def visit_Call(self, node: ast.Call) -> ast.AST:  # noqa: N802
+            self.generic_visit(node)
+            if isinstance(node.func, ast.Name) and node.func.id == "getattr" and len(node.args) == 2 and isinstance(node.args[1], ast.Constant) \
+                    and isinstance(node.args[1].value, str) and not node.keywords:
+                return ast.Attribute(value=node.args[0], attr=node.args[1].value, ctx=ast.Load())
+            return node
+
+    return G().visit(st)
+
+
+def _propagate_locals(body: list[ast.stmt]) -> list[ast.stmt]:
+    """Inside one unrolled copy of a loop body: `v = <expr>` followed by uses of v -> the uses read <expr> (v assigned once in the body)."""
+    out: list[ast.stmt] = []
+    bound: dict[str, ast.expr] = {}
+    for st in body:
+        st = _Sub(bound).visit(st) if bound else st
+        if isinstance(st, ast.Assign) and len(st.targets) == 1 and isinstance(st.targets[0], ast.Name) and isinstance(st.value, (ast.Attribute, ast.Name, ast.Constant)):
+            bound[st.targets[0].id] = st.value
+            continue
+        out.append(st)
+    return out
+
+
+def normal_form(prog: Program, fn: FunctionInfo) -> FunctionInfo:
+    """An equivalent writer in the statement forms the key table reads: loops over literal displays of rows are unrolled (also dict comprehensions
+    over them given to update()), a helper whose body is `return {display}` is inlined at its call, `getattr(self, "k")` is `self.k`,
+    `return {**m, "k": v}` is `m["k"] = v; return m`.  The result is only analysed, never run."""
+    import copy
+
+    from sa.srcmodel import set_parents
+
+    node = copy.deepcopy(fn.node)
+
+    def inline_helper(call: ast.expr) -> ast.expr:
+        if isinstance(call, ast.Call) and dotted(call.func) and not any(isinstance(a, ast.Starred) for a in call.args) and not any(k.arg is None for k in call.keywords):
+            h = prog.functions.get(prog.resolve(fn.module, dotted(call.func)) or "")
+            if h is not None and h.cls is None:
+                body = [b for b in h.node.body if not (isinstance(b, ast.Expr) and isinstance(b.value, ast.Constant))]
+                if len(body) == 1 and isinstance(body[0], ast.Return) and isinstance(body[0].value, ast.Dict):
+                    a = h.node.args
+                    bound = dict(zip([x.arg for x in (*a.posonlyargs, *a.args)], call.args))
+                    bound.update({k.arg: k.value for k in call.keywords})
+                    return _Sub(bound).visit(copy.deepcopy(body[0].value))
+        return call
+
+    def rewrite(body: list[ast.stmt]) -> list[ast.stmt]:
+        out: list[ast.stmt] = []
+        for st in body:
+            st = _simplify(st)
+            if isinstance(st, (ast.Assign, ast.AnnAssign)) and st.value is not None:
+                st.value = inline_helper(st.value)
+            if isinstance(st, ast.Return) and st.value is not None:
+                st.value = inline_helper(st.value)
+                v = st.value
+                if isinstance(v, ast.Dict) and any(k is None for k in v.keys):
+                    spreads = [val for k, val in zip(v.keys, v.values) if k is None]
+                    if len(spreads) == 1 and isinstance(spreads[0], ast.Name) and v.keys[0] is None:
+                        m = spreads[0]
+                        for k, val in zip(v.keys, v.values):
+                            if k is not None:
+                                out.append(ast.Assign(targets=[ast.Subscript(value=ast.Name(id=m.id, ctx=ast.Load()), slice=k, ctx=ast.Store())], value=val, lineno=st.lineno, col_offset=0))
+                        out.append(ast.Return(value=ast.Name(id=m.id, ctx=ast.Load()), lineno=st.lineno, col_offset=0))
+                        continue
+            if isinstance(st, ast.For) and not st.orelse:
+                rows = _rows_of(node, st.iter)
+                binds = [_bind_row(st.target, r) for r in rows] if rows else None
+                if binds and all(b is not None for b in binds) and not any(isinstance(x, (ast.Break, ast.Continue)) for b_ in st.body for x in ast.walk(b_)):
+                    for b in binds:
+                        out += rewrite(_propagate_locals([_simplify(_Sub(b).visit(copy.deepcopy(x))) for x in st.body]))
+                    continue
+            if isinstance(st, ast.Expr) and isinstance(st.value, ast.Call) and isinstance(st.value.func, ast.Attribute) and st.value.func.attr == "update" \
+                    and len(st.value.args) == 1 and isinstance(st.value.args[0], ast.DictComp) and len(st.value.args[0].generators) == 1:
+                comp = st.value.args[0]
+                gen = comp.generators[0]
+                rows = _rows_of(node, gen.iter)
+                binds = [_bind_row(gen.target, r) for r in rows] if rows else None
+                if binds and all(b is not None for b in binds):
+                    for b in binds:
+                        assign: ast.stmt = ast.Assign(targets=[ast.Subscript(value=copy.deepcopy(st.value.func.value), slice=_Sub(b).visit(copy.deepcopy(comp.key)), ctx=ast.Store())],
+                                                      value=_Sub(b).visit(copy.deepcopy(comp.value)), lineno=st.lineno, col_offset=0)
+                        if gen.ifs:
+                            test = gen.ifs[0] if len(gen.ifs) == 1 else ast.BoolOp(op=ast.And(), values=list(gen.ifs))
+                            assign = ast.If(test=_Sub(b).visit(copy.deepcopy(test)), body=[assign], orelse=[], lineno=st.lineno, col_offset=0)
+                        out.append(assign)
+                    continue
+            for field_ in ("body", "orelse", "finalbody"):
+                if isinstance(getattr(st, field_, None), list) and getattr(st, field_) and isinstance(getattr(st, field_)[0], ast.stmt):
+                    setattr(st, field_, rewrite(getattr(st, field_)))
+            out.append(st)
+        return out
+
+    node.body = rewrite(node.body)
+    ast.fix_missing_locations(node)
+    set_parents(node)
+    return FunctionInfo(fn.qualname, fn.name, node, fn.module, fn.cls, fn.outer)
+
+
 def writer_keys(prog: Program, cls: ClassInfo, method: str = "as_dict", _after: ClassInfo | None = None, *, full: bool | None = None) -> dict[str, WKey]:
     """`full`: when given, `always` is computed under the assumption that the `full` flag has that value."""
     ms = prog.lookup_method(cls, method, after=_after)
     if not ms:
         raise AnalysisError(f"{cls.qualname} has no {method}")
-    fn = ms[0]
+    fn = normal_form(prog, ms[0])
     cfg = cfg_of(fn)
     out: dict[str, WKey] = {}
     writes: list[tuple[object, str, ast.expr]] = []  # (cfg node, key, value)
